@@ -28,7 +28,11 @@ func main() {
 	if os.Args[1] != "builtins" && os.Getenv("ACVH_NO_WARMUP") == "" {
 		warmup()
 	}
-	if err := fn(os.Args[2:]); err != nil {
+	err := fn(os.Args[2:])
+	if ctxFile != "" {
+		os.Remove(ctxFile) // scratch context file of the re-serialisation renderer
+	}
+	if err != nil {
 		fmt.Fprintln(os.Stderr, "acvh:", err)
 		os.Exit(2)
 	}
